@@ -233,15 +233,23 @@ def xml_roundtrip(tier, seed):
     trees += [el('p', [el('b', text='café', tail='été — …')], text='Un '), el('r', [el('a', tail='x & y < z > w')], text='&<>"\''),
               el('r', attrs=(('k', 'a"b<c&d\'e'), ('{urn:x}k', '\t\n')), text=' '), el('{urn:x}a', [el('{urn:y}b', [el('c')]), el('{urn:x}a')]),
               el('r', [('c', None, (), (), ' a -- b ' if False else 'note', 't', ()), ('p', 'pi', (), (), 'data ?', None, ())], text='x')]
-    ser = XPath31Parser().parse('serialize(.)')
+    # text, tail and attribute values longer than the write buffers of the serializers; apostrophes and quotes in content
+    big = 'x' * 70000
+    trees += [el('a', [el('b', text=big, tail='t' * 9000), el('c', text="it's \"q\"", attrs=(('k', "o'clock " + 'y' * 9000),))], text="'")]
+    sers = [XPath31Parser().parse('serialize(.)'), XPath31Parser().parse("serialize(., map{'omit-xml-declaration': false()})")]
     back = XPath31Parser().parse('parse-xml($t)')
     deq = XPath31Parser().parse('deep-equal($a, $b)')
-    for t in trees:
-        root = T.realise(t, 'et')
-        rn = get_node_tree(ET.ElementTree(root))
+    import lxml.etree as LX
+    for ti, t in enumerate(trees):
+      for lib in (('et', 'lxml') if ti % 5 == 0 or ti >= len(trees) - 6 else ('et',)):
+        # lxml lets an element in no namespace carry a default namespace declaration, which no XML text can express: dropped for lxml
+        no_default = lambda x: x[:3] + (tuple(d for d in x[3] if d[0]),) + x[4:6] + (tuple(no_default(k) for k in x[6]),)     # noqa
+        root = T.realise(t if lib == 'et' else no_default(t), lib)
+        rn = get_node_tree(ET.ElementTree(root) if lib == 'et' else LX.ElementTree(root))
         nodes = [rn] + [x for x in rn.iter_descendants() if hasattr(x, 'elem') and not callable(x.elem.tag)]
         for node in nodes[: (4 if tier == 'quick' else 12)]:
             n += 1
+            ser = sers[(n + ti) % 2]
             try:
                 text = ser.evaluate(XPathContext(root=rn, item=node))
                 doc = back.evaluate(XPathContext(root=rn, variables={'t': text}))
